@@ -2,6 +2,7 @@ package open_game_manager
 
 import (
 	"errors"
+	"sync"
 
 	"github.com/weedbox/syncsaga"
 )
@@ -18,6 +19,7 @@ type OpenGameManager interface {
 }
 
 type openGameManager struct {
+	mu              sync.Mutex
 	onOpenGameReady func(state OpenGameState)
 	rg              *syncsaga.ReadyGroup
 	state           *OpenGameState
